@@ -8,6 +8,7 @@ use embedded_graphics::{
     Pixel,
 };
 use std::collections::HashMap;
+use std::fmt::Write as _;
 use std::panic::{catch_unwind, AssertUnwindSafe};
 
 const SIZE: i32 = 64;
@@ -284,8 +285,53 @@ fn p_mock_char<C: Mk>(toks: &[&str]) -> String {
     }
 }
 
+/// the panic message of a failed closure, None when it returned
+fn panic_message(f: impl FnOnce()) -> Option<String> {
+    match catch_unwind(AssertUnwindSafe(f)) {
+        Ok(()) => None,
+        Err(e) => Some(if let Some(s) = e.downcast_ref::<String>() { s.clone() } else if let Some(s) = e.downcast_ref::<&str>() { s.to_string() } else { "?".into() }),
+    }
+}
+
+/// assert_eq / assert_eq_with_message / assert_pattern / assert_pattern_with_message: panic exactly when the 4096 cells
+/// differ, never otherwise; the message shows both displays (and the caller's message)
+fn p_mock_assert<C: Mk>(toks: &[&str]) -> String {
+    let (ta, tb) = split_slash(toks);
+    let (a, ra) = build::<C>(ta);
+    let (mut b, rb) = build::<C>(tb);
+    b.set_allow_overdraw(false);
+    let same = ra.map == rb.map;
+    let mut n = 0;
+    let mut judge = |what: &str, msg: Option<String>, with_message: bool| -> Result<(), String> {
+        match (&msg, same) {
+            (None, true) => {}
+            (Some(m), false) => {
+                if !m.contains(&format!("{:?}", a)) { return Err(format!("FAIL {}: the panic message does not show the display", what)); }
+                if with_message && !m.contains("custom-message-7") { return Err(format!("FAIL {}: the panic message lacks the caller's message", what)); }
+            }
+            (None, false) => return Err(format!("FAIL {} did not panic although the displays differ", what)),
+            (Some(_), true) => return Err(format!("FAIL {} panicked although all cells agree", what)),
+        }
+        n += 1;
+        Ok(())
+    };
+    if let Err(e) = judge("assert_eq", panic_message(|| a.assert_eq(&b)), false) { return e; }
+    if let Err(e) = judge("assert_eq_with_message", panic_message(|| a.assert_eq_with_message(&b, |f| write!(f, "custom-message-7"))), true) { return e; }
+    // the other display as a pattern (possible when all its colours have a character)
+    if rb.map.values().all(|v| doc_raw_to_char::<C>(*v) != '?') {
+        let nrows = rb.map.keys().map(|k| k.1).max().map_or(0, |y| y + 1);
+        let ncols = rb.map.keys().map(|k| k.0).max().map_or(0, |x| x + 1);
+        let rows: Vec<String> = (0..nrows).map(|y| (0..ncols).map(|x| rb.map.get(&(x, y)).map_or(' ', |v| doc_raw_to_char::<C>(*v))).collect()).collect();
+        let refs: Vec<&str> = rows.iter().map(|s| s.as_str()).collect();
+        if let Err(e) = judge("assert_pattern", panic_message(|| a.assert_pattern(&refs)), false) { return e; }
+        if let Err(e) = judge("assert_pattern_with_message", panic_message(|| a.assert_pattern_with_message(&refs, |f| write!(f, "custom-message-7"))), true) { return e; }
+    }
+    format!("OK {}", n)
+}
+
 pub fn run(suite: &str, a: &[&str]) -> Option<String> {
     Some(match suite {
+        "p_mock_assert" => dispatch!(a[0], p_mock_assert, &a[1..]),
         "p_mock_char" => dispatch!(a[0], p_mock_char, &a[1..]),
         "mock_points" => dispatch!(a[0], mock_points, &a[1..]),
         "p_mock_points" => dispatch!(a[0], p_mock_points, &a[1..]),
@@ -456,6 +502,13 @@ fn p_mock_hist<C: Mk>(toks: &[&str]) -> String {
             for (&(x, y), &c) in r.map.iter() { rs.map.insert((y, x), c); }
             if let Err(e) = agree(&s, &rs, &[]) { return format!("FAIL swap_xy after op#{}: {}", k, e); }
         }
+        // Debug prints the documented character of every cell ('?' for a colour without one, ' ' for None), 64 columns,
+        // trailing untouched rows counted
+        if f[0] == "dbg" {
+            let s = match guarded(|| format!("{:?}", d)) { Ok(s) => s, Err(e) => return format!("FAIL Debug panicked after op#{}: {}", k, e) };
+            let want = expected_debug::<C>(&r);
+            if s != want { return format!("FAIL Debug output after op#{} {} expected {}", k, text_out(&s), text_out(&want)); }
+        }
         // map applies the function to every touched cell and leaves the others untouched
         if f[0] == "mp" {
             let k = u(f[1]);
@@ -558,6 +611,32 @@ fn doc_char_to_raw<C: Mk>(ch: char) -> Option<u32> {
             Some((r * ((1 << rb) - 1)) << rp | (g * ((1 << gb) - 1)) << gp | (b * ((1 << bb) - 1)) << bp)
         }
     }
+}
+
+/// inverse of the documented table: the character of a raw value, '?' when it has none
+fn doc_raw_to_char<C: Mk>(v: u32) -> char {
+    for ch in "0123456789ABCDEF.#KRGBYMCW".chars() {
+        if doc_char_to_raw::<C>(ch) == Some(v) {
+            return ch;
+        }
+    }
+    '?'
+}
+
+/// the documented Debug text of a reference display
+fn expected_debug<C: Mk>(r: &Ref) -> String {
+    let last = r.map.keys().map(|k| k.1).max();
+    let mut want = String::from("MockDisplay[\n");
+    let nrows = last.map_or(0, |y| y + 1);
+    for y in 0..nrows {
+        for x in 0..SIZE {
+            want.push(r.map.get(&(x, y)).map_or(' ', |v| doc_raw_to_char::<C>(*v)));
+        }
+        want.push('\n');
+    }
+    if nrows < 64 { want.push_str(&format!("({} empty rows skipped)\n", 64 - nrows)); }
+    want.push_str("]\n");
+    want
 }
 
 /// pattern over the documented character set: from_pattern sets exactly the documented cells, Debug prints the
